@@ -82,7 +82,7 @@ RULE = (
 )
 SCOPE = {
     "quick": {"C": (0, 4, 9), "S": (9, 14), "N4": 240, "RG": 3600, "FL": (4, 9, 13), "RF": 2000, "AC": 2000, "FAM": 640, "FFAM": 320},
-    "thorough": {"C": (0, 4, 9), "S": (9, 12, 14), "N4": 1500, "RG": 12000, "FL": (4, 9, 13), "RF": 6000, "AC": 6000, "FAM": 2400, "FFAM": 1200},
+    "thorough": {"C": (0, 4, 9), "S": (9, 12, 14), "N4": 4000, "RG": 40000, "FL": (4, 9, 13), "RF": 20000, "AC": 20000, "FAM": 6000, "FFAM": 3000},
 }
 FLOOR = {"quick": 800, "thorough": 5000}
 REQUIRED_MONITORS = ["agg.children", "agg.span", "agg.is-coding", "agg.feature-types", "agg.primary", "agg.primary-accessors",
